@@ -32,7 +32,7 @@ type Store struct {
 	mu        sync.Mutex
 	calls     []StoreCall
 	saves     int
-	FailSaves map[int]bool // 1-based index of Save calls that fail
+	FailSaves map[int]bool                         // 1-based index of Save calls that fail
 	Delay     func(op string, n int) time.Duration // virtual sleep inside the call (never with concurrent callers: a goroutine queued on a mutex is not durably blocked, so virtual time would stop)
 	Yield     func(op string, n int) int           // number of runtime.Gosched() calls inside the call (schedule perturbation that is safe under locks)
 	Log       *EventLog
@@ -40,6 +40,7 @@ type Store struct {
 	// Partition: keep the messages per (Sender, Target) of the StorageID, as a store
 	// serving several sessions has to; the bundled memory.Storage ignores the ID.
 	FailSets  bool // every SetSeqNum call fails from now on (a counter store that has gone away)
+	FailGets  bool // every GetCurrSeqNum call fails
 	Partition bool
 	parts     map[string]map[int]simplefixgo.SendingMessage
 }
@@ -107,8 +108,21 @@ func (s *Store) GetNextSeqNum(id fix.StorageID) (int, error) {
 }
 
 func (s *Store) GetCurrSeqNum(id fix.StorageID) (int, error) {
+	s.mu.Lock()
+	failing := s.FailGets
+	s.mu.Unlock()
+	if failing {
+		return 0, ErrInjected
+	}
 	n, err := s.Inner.GetCurrSeqNum(id)
 	return n, err
+}
+
+// SetFailGets: from now on (or no longer) reading the current number fails.
+func (s *Store) SetFailGets(on bool) {
+	s.mu.Lock()
+	s.FailGets = on
+	s.mu.Unlock()
 }
 
 func (s *Store) ResetSeqNum(id fix.StorageID) error { return s.Inner.ResetSeqNum(id) }
